@@ -237,6 +237,8 @@ pub enum SourceSpec {
     File,
     /// BufReader over a real file
     BufFile,
+    /// in-memory seekable stream whose n-th seek (counted from 1) fails once with an I/O error; works normally before and after
+    SeekFailsOnce(usize),
     /// flute's own create_from_file, content read into memory
     PathRam,
     /// flute's own create_from_file, content streamed from the file at every transfer
@@ -409,6 +411,9 @@ pub struct ChunkedReader {
     chunks: Vec<usize>,
     next: usize,
     pub log: Arc<Mutex<Vec<String>>>,
+    /// this seek (counted from 1) fails once
+    pub fail_seek: Option<usize>,
+    seeks: usize,
 }
 
 impl ChunkedReader {
@@ -421,6 +426,8 @@ impl ChunkedReader {
                 chunks,
                 next: 0,
                 log: log.clone(),
+                fail_seek: None,
+                seeks: 0,
             },
             log,
         )
@@ -456,6 +463,11 @@ impl Seek for ChunkedReader {
         };
         if np < 0 {
             return Err(std::io::Error::new(std::io::ErrorKind::InvalidInput, "negative seek"));
+        }
+        self.seeks += 1;
+        if self.fail_seek == Some(self.seeks) {
+            self.log.lock().unwrap().push(format!("seek #{} fails", self.seeks));
+            return Err(std::io::Error::new(std::io::ErrorKind::Other, "transient I/O error (injected)"));
         }
         if let SeekFrom::Start(p) = pos {
             self.log.lock().unwrap().push(format!("seek_start({})", p));
@@ -657,6 +669,12 @@ pub fn build_object(o: &ObjSpec) -> Result<BuiltObject, String> {
         SourceSpec::ChunkedAt(chunks, at) => {
             let (mut r, log) = ChunkedReader::new(Arc::new(o.data.clone()), chunks.clone());
             r.pos = (*at).min(o.data.len());
+            seek_log = Some(log);
+            ObjectDesc::create_from_stream(Box::new(r), &o.content_type, &url, o.md5, cfg)
+        }
+        SourceSpec::SeekFailsOnce(n) => {
+            let (mut r, log) = ChunkedReader::new(Arc::new(o.data.clone()), vec![]);
+            r.fail_seek = Some(*n);
             seek_log = Some(log);
             ObjectDesc::create_from_stream(Box::new(r), &o.content_type, &url, o.md5, cfg)
         }
